@@ -590,7 +590,7 @@ def generate(ctx, shard=0, nshards=1):
 
 # ------------------------------------------------------------------ known findings / replay
 def known_match(finding, failure):
-    """findings.d/C15.json entries: predicate + targets + JDE range of the query."""
+    """known_findings.json (property C15) entries: predicate + targets + JDE range of the query."""
     if finding.get('predicate') != failure.get('predicate'):
         return False
     inp = failure.get('input') or []
